@@ -7,12 +7,15 @@ theorem ret_pc (x : Thread) (r : Req) (o : POut) : (ret x r o).pc = .resv r ∨ 
 theorem ret_todo (x : Thread) (r : Req) (o : POut) : (ret x r o).todo = x.todo := by
   unfold ret; split <;> simp
 
+theorem ret_recording (x : Thread) (r : Req) (o : POut) : (ret x r o).pc.recording = false := by
+  rcases ret_pc x r o with h | h <;> simp [h, Pc.recording]
+
 /-- a thread that returns from a request holds no ticket; if it loops it is about to reserve again -/
 theorem ret_self {s : Script} {c : Cfg} {t : Nat} (x : Thread) (r : Req) (o : POut) (R' Y' P' : Nat)
     (htodo : ∀ r' ∈ x.todo, ReqOk r') (hr : r.isLoop = true → 1 ≤ r.len) :
     SelfOk s c t (ret x r o) R' Y' P' := by
   have hpc := ret_pc x r o
-  refine ⟨by simpa [ret_todo] using htodo, ?_, ?_, ?_, ?_, ?_⟩
+  refine ⟨by simpa [ret_todo] using htodo, ?_, ?_, ?_, ?_, ?_, ?_, ?_⟩
   · intro r' he
     rcases hpc with h | h
     · rw [h] at he
@@ -27,12 +30,23 @@ theorem ret_self {s : Script} {c : Cfg} {t : Nat} (x : Thread) (r : Req) (o : PO
   · intro b n hb; rcases hpc with h | h <;> simp [h, Pc.ticket] at hb
   · intro r' b acc he; rcases hpc with h | h <;> simp [h] at he
   · intro r' b acc he; rcases hpc with h | h <;> simp [h] at he
+  · intro r' b acc he; rcases hpc with h | h <;> simp [h] at he
+  · intro r' b acc he; rcases hpc with h | h <;> simp [h] at he
   · intro r' b he; rcases hpc with h | h <;> simp [h] at he
 
 theorem ret_inCS (x : Thread) (r : Req) (o : POut) : (ret x r o).pc.inCS = false := by
   rcases ret_pc x r o with h | h <;> simp [h, Pc.inCS]
 
-theorem step_inv {s : Script} (hf : Fused s) {c : Cfg} (h : Inv s c) (hW : c.R < W) (t : Nat) : Inv s (step s t c) := by
+/-- `noneC` carries over a step of a thread that was not recording and that changes neither `C` nor `P` -/
+theorem none_same {s : Script} {c : Cfg} (h : Inv s c) (t : Nat) (hnr : (c.th t).pc.recording = false) (x' : Thread) :
+    ¬ NoNoneBefore s c.P → c.C = true ∨ x'.pc.recording = true ∨ ∃ u, u ≠ t ∧ (c.th u).pc.recording = true := by
+  intro hnn
+  rcases h.noneC hnn with h1 | ⟨u, hu⟩
+  · exact Or.inl h1
+  · refine Or.inr (Or.inr ⟨u, ?_, hu⟩)
+    intro hut; subst hut; rw [hnr] at hu; exact absurd hu (by simp)
+
+theorem step_inv {s : Script} {c : Cfg} (h : Inv s c) (hW : c.R < W) (t : Nat) : Inv s (step s t c) := by
   unfold step
   generalize hx : c.th t = x
   obtain ⟨pc, todo, outs⟩ := x
@@ -45,6 +59,9 @@ theorem step_inv {s : Script} (hf : Fused s) {c : Cfg} (h : Inv s c) (hW : c.R <
     by_cases hu : u = t
     · subst hu; simp [hx, hpc]
     · exact hall u hu
+  have hns : (pc.recording = false) → ∀ x' : Thread, ¬ NoNoneBefore s c.P → c.C = true ∨ x'.pc.recording = true ∨ ∃ u, u ≠ t ∧ (c.th u).pc.recording = true :=
+    fun hr x' => none_same h t (by simp [hx, hr]) x'
+  have hentS : ∀ u r b, u ≠ t → (c.th u).pc = .ent r b → b = c.Y := fun u r b _ hp => h.entY u r b hp
   cases pc with
   | idle =>
     cases todo with
@@ -56,12 +73,12 @@ theorem step_inv {s : Script} (hf : Fused s) {c : Cfg} (h : Inv s c) (hW : c.R <
       | skip =>
         simp only
         rw [← cfg_eta c]
-        refine inv_update h t _ c.R c.Y c.C c.P h.yr (Nat.le_refl _) ⟨hrest, by simp, ?_, by simp, by simp, by simp⟩ (oth_same h t) (hidle0 (by simp [Pc.inCS]) _)
+        refine inv_update h t _ c.R c.Y c.C c.P h.yr (Nat.le_refl _) ⟨hrest, by simp, ?_, by simp, by simp, by simp, by simp, by simp⟩ (oth_same h t) (hidle0 (by simp [Pc.inCS]) _) (hns rfl _) hentS
         intro b n hb; simp [Pc.ticket] at hb
       | single l =>
         simp only
         rw [← cfg_eta c]
-        refine inv_update h t _ c.R c.Y c.C c.P h.yr (Nat.le_refl _) ⟨hrest, by simp [Req.len], ?_, by simp, by simp, by simp⟩ (oth_same h t) (hidle0 (by simp [Pc.inCS]) _)
+        refine inv_update h t _ c.R c.Y c.C c.P h.yr (Nat.le_refl _) ⟨hrest, by simp [Req.len], ?_, by simp, by simp, by simp, by simp, by simp⟩ (oth_same h t) (hidle0 (by simp [Pc.inCS]) _) (hns rfl _) hentS
         intro b n hb; simp [Pc.ticket] at hb
       | chunk n =>
         simp only
@@ -70,7 +87,7 @@ theorem step_inv {s : Script} (hf : Fused s) {c : Cfg} (h : Inv s c) (hW : c.R <
           · simp at h'
           · simpa [Req.len] using h'
         rw [← cfg_eta c]
-        refine inv_update h t _ c.R c.Y c.C c.P h.yr (Nat.le_refl _) ⟨hrest, by simpa [Req.len] using this, ?_, by simp, by simp, by simp⟩ (oth_same h t) (hidle0 (by simp [Pc.inCS]) _)
+        refine inv_update h t _ c.R c.Y c.C c.P h.yr (Nat.le_refl _) ⟨hrest, by simpa [Req.len] using this, ?_, by simp, by simp, by simp, by simp, by simp⟩ (oth_same h t) (hidle0 (by simp [Pc.inCS]) _) (hns rfl _) hentS
         intro b n hb; simp [Pc.ticket] at hb
       | buffered n l =>
         simp only
@@ -79,17 +96,17 @@ theorem step_inv {s : Script} (hf : Fused s) {c : Cfg} (h : Inv s c) (hW : c.R <
           · simp at h'
           · simpa [Req.len] using h'
         rw [← cfg_eta c]
-        refine inv_update h t _ c.R c.Y c.C c.P h.yr (Nat.le_refl _) ⟨hrest, by simpa [Req.len] using this, ?_, by simp, by simp, by simp⟩ (oth_same h t) (hidle0 (by simp [Pc.inCS]) _)
+        refine inv_update h t _ c.R c.Y c.C c.P h.yr (Nat.le_refl _) ⟨hrest, by simpa [Req.len] using this, ?_, by simp, by simp, by simp, by simp, by simp⟩ (oth_same h t) (hidle0 (by simp [Pc.inCS]) _) (hns rfl _) hentS
         intro b n hb; simp [Pc.ticket] at hb
   | skp =>
     simp only
-    refine inv_update h t _ c.R c.Y true c.P h.yr (Nat.le_refl _) (ret_self _ _ _ _ _ _ htodo0 (by simp [Req.isLoop])) (oth_same h t) ?_
+    refine inv_update h t _ c.R c.Y true c.P h.yr (Nat.le_refl _) (ret_self _ _ _ _ _ _ htodo0 (by simp [Req.isLoop])) (oth_same h t) ?_ (fun _ => Or.inl rfl) hentS
     intro _ hall hnn
     exact hidle0 (by simp [Pc.inCS]) (ret ⟨.skp, todo, outs⟩ .skip .unit) (ret_inCS _ _ _) hall hnn
   | resv r =>
     simp only
     have hr : 1 ≤ r.len := h.resvOk t r (by simp [hx])
-    refine inv_update h t _ (c.R + r.len) c.Y c.C c.P (by have := h.yr; omega) (by omega) ⟨htodo0, by simp, ?_, by simp, by simp, by simp⟩ (oth_same h t) (hidle0 (by simp [Pc.inCS]) _)
+    refine inv_update h t _ (c.R + r.len) c.Y c.C c.P (by have := h.yr; omega) (by omega) ⟨htodo0, by simp, ?_, by simp, by simp, by simp, by simp, by simp⟩ (oth_same h t) (hidle0 (by simp [Pc.inCS]) _) (hns rfl _) hentS
     intro b n hb
     simp [Pc.ticket] at hb
     obtain ⟨rfl, rfl⟩ := hb
@@ -107,9 +124,9 @@ theorem step_inv {s : Script} (hf : Fused s) {c : Cfg} (h : Inv s c) (hW : c.R <
     split
     · rw [← cfg_eta c]
       exact inv_update h t _ c.R c.Y c.C c.P h.yr (Nat.le_refl _) (ret_self _ _ _ _ _ _ htodo0 (fun _ => htk.1)) (oth_same h t)
-        (fun _ hall hnn => hidle0 (by simp [Pc.inCS]) (ret ⟨.pre r b, todo, outs⟩ r .fin) (ret_inCS _ _ _) hall hnn)
+        (fun _ hall hnn => hidle0 (by simp [Pc.inCS]) (ret ⟨.pre r b, todo, outs⟩ r .fin) (ret_inCS _ _ _) hall hnn) (hns rfl _) hentS
     · rw [← cfg_eta c]
-      refine inv_update h t _ c.R c.Y c.C c.P h.yr (Nat.le_refl _) ⟨htodo0, by simp, ?_, by simp, by simp, by simp⟩ (oth_same h t) (hidle0 (by simp [Pc.inCS]) _)
+      refine inv_update h t _ c.R c.Y c.C c.P h.yr (Nat.le_refl _) ⟨htodo0, by simp, ?_, by simp, by simp, by simp, by simp, by simp⟩ (oth_same h t) (hidle0 (by simp [Pc.inCS]) _) (hns rfl _) hentS
       intro b0 n0 hb0
       simp [Pc.ticket] at hb0
       obtain ⟨rfl, rfl⟩ := hb0
@@ -119,35 +136,34 @@ theorem step_inv {s : Script} (hf : Fused s) {c : Cfg} (h : Inv s c) (hW : c.R <
     have htk := h.tk t b r.len hme
     have hdisj : ∀ u b' n', u ≠ t → (c.th u).pc.ticket = some (b', n') → b + r.len ≤ b' ∨ b' + n' ≤ b :=
       fun u b' n' hu hb' => h.disj t u b r.len b' n' (Ne.symm hu) hme hb'
-    have hit : iters r b = r.len := iters_eq r b (by omega)
+    have keep : ∀ pc', pc'.ticket = some (b, r.len) → pc'.inCS = false → pc'.acc = [] →
+        (∀ r' b' acc', pc' ≠ .cs r' b' acc' ∧ pc' ≠ .ins r' b' acc' ∧ pc' ≠ .pub r' b' acc' ∧ pc' ≠ .setC r' b' acc') → (∀ r', pc' ≠ .resv r') →
+        (∀ r' b', pc' = .ent r' b' → b' = c.Y) →
+        Inv s (setTh { c with R := c.R, Y := c.Y, C := c.C, P := c.P } t ⟨pc', todo, outs⟩) := by
+      intro pc' h1 h2 h3 h4 h5 h6
+      refine inv_update h t _ c.R c.Y c.C c.P h.yr (Nat.le_refl _) ⟨htodo0, fun r' he => absurd he (h5 r'), ?_, ?_, ?_, ?_, ?_, h6⟩ (oth_same h t) (hidle0 (by simp [Pc.inCS]) _) (hns rfl _) hentS
+      · intro b0 n0 hb0
+        simp only at hb0; rw [h1] at hb0
+        simp at hb0; obtain ⟨rfl, rfl⟩ := hb0
+        exact ⟨htk.1, htk.2.1, htk.2.2, by simp [h2], by simp [h3], by simp [h3], by simp [h2], hdisj⟩
+      · intro r' b' acc' he; rcases he with he | he | he
+        · exact absurd he (h4 r' b' acc').1
+        · exact absurd he (h4 r' b' acc').2.1
+        · exact absurd he (h4 r' b' acc').2.2.2
+      · intro r' b' acc' he; exact absurd he (h4 r' b' acc').2.2.1
+      · intro r' b' acc' he; exact absurd he (h4 r' b' acc').2.2.2
+      · intro r' b' acc' he; rcases he with he | he
+        · exact absurd he (h4 r' b' acc').1
+        · exact absurd he (h4 r' b' acc').2.1
     simp only
     split
     · rename_i hbY
-      rw [hit, if_neg (by omega)]
-      rw [← cfg_eta c]
-      refine inv_update h t _ c.R c.Y c.C c.P h.yr (Nat.le_refl _) ⟨htodo0, by simp, ?_, (by intro r' b' acc' he; simp at he; obtain ⟨rfl, rfl, rfl⟩ := he; have := htk.1; simp; omega), by simp, by simp⟩ (oth_same h t) (by simp [Pc.inCS])
-      intro b0 n0 hb0
-      simp [Pc.ticket] at hb0
-      obtain ⟨rfl, rfl⟩ := hb0
-      refine ⟨htk.1, htk.2.1, htk.2.2, fun _ => hbY, by simp [Pc.acc], by simp [Pc.acc], ?_, hdisj⟩
-      intro _ hnn
-      have hno := others_not_inCS h t b r.len hme hbY
-      have := h.pidle (by
-        intro u
-        by_cases hu : u = t
-        · subst hu; simp [hx, Pc.inCS]
-        · exact hno u hu) hnn
-      simp [Pc.acc]; omega
+      rw [← cfg_eta c]; exact keep (.ent r b) (by simp [Pc.ticket]) (by simp [Pc.inCS]) (by simp [Pc.acc]) (by simp) (by simp) (by intro r' b' he; simp at he; omega)
     · split
       · rw [← cfg_eta c]
         exact inv_update h t _ c.R c.Y c.C c.P h.yr (Nat.le_refl _) (ret_self _ _ _ _ _ _ htodo0 (fun _ => htk.1)) (oth_same h t)
-          (fun _ hall hnn => hidle0 (by simp [Pc.inCS]) (ret ⟨.wait r b, todo, outs⟩ r .fin) (ret_inCS _ _ _) hall hnn)
-      · rw [← cfg_eta c]
-        refine inv_update h t _ c.R c.Y c.C c.P h.yr (Nat.le_refl _) ⟨htodo0, by simp, ?_, by simp, by simp, by simp⟩ (oth_same h t) (hidle0 (by simp [Pc.inCS]) _)
-        intro b0 n0 hb0
-        simp [Pc.ticket] at hb0
-        obtain ⟨rfl, rfl⟩ := hb0
-        exact ⟨htk.1, htk.2.1, htk.2.2, by simp [Pc.inCS], by simp [Pc.acc], by simp [Pc.acc], by simp [Pc.inCS], hdisj⟩
+          (fun _ hall hnn => hidle0 (by simp [Pc.inCS]) (ret ⟨.wait r b, todo, outs⟩ r .fin) (ret_inCS _ _ _) hall hnn) (hns rfl _) hentS
+      · rw [← cfg_eta c]; exact keep (.chk r b) (by simp [Pc.ticket]) (by simp [Pc.inCS]) (by simp [Pc.acc]) (by simp) (by simp) (by simp)
   | chk r b =>
     have hme : (c.th t).pc.ticket = some (b, r.len) := by simp [hx, Pc.ticket]
     have htk := h.tk t b r.len hme
@@ -157,13 +173,51 @@ theorem step_inv {s : Script} (hf : Fused s) {c : Cfg} (h : Inv s c) (hW : c.R <
     split
     · rw [← cfg_eta c]
       exact inv_update h t _ c.R c.Y c.C c.P h.yr (Nat.le_refl _) (ret_self _ _ _ _ _ _ htodo0 (fun _ => htk.1)) (oth_same h t)
-        (fun _ hall hnn => hidle0 (by simp [Pc.inCS]) (ret ⟨.chk r b, todo, outs⟩ r .fin) (ret_inCS _ _ _) hall hnn)
+        (fun _ hall hnn => hidle0 (by simp [Pc.inCS]) (ret ⟨.chk r b, todo, outs⟩ r .fin) (ret_inCS _ _ _) hall hnn) (hns rfl _) hentS
     · rw [← cfg_eta c]
-      refine inv_update h t _ c.R c.Y c.C c.P h.yr (Nat.le_refl _) ⟨htodo0, by simp, ?_, by simp, by simp, by simp⟩ (oth_same h t) (hidle0 (by simp [Pc.inCS]) _)
+      refine inv_update h t _ c.R c.Y c.C c.P h.yr (Nat.le_refl _) ⟨htodo0, by simp, ?_, by simp, by simp, by simp, by simp, by simp⟩ (oth_same h t) (hidle0 (by simp [Pc.inCS]) _) (hns rfl _) hentS
       intro b0 n0 hb0
       simp [Pc.ticket] at hb0
       obtain ⟨rfl, rfl⟩ := hb0
       exact ⟨htk.1, htk.2.1, htk.2.2, by simp [Pc.inCS], by simp [Pc.acc], by simp [Pc.acc], by simp [Pc.inCS], hdisj⟩
+  | ent r b =>
+    have hme : (c.th t).pc.ticket = some (b, r.len) := by simp [hx, Pc.ticket]
+    have htk := h.tk t b r.len hme
+    have hdisj : ∀ u b' n', u ≠ t → (c.th u).pc.ticket = some (b', n') → b + r.len ≤ b' ∨ b' + n' ≤ b :=
+      fun u b' n' hu hb' => h.disj t u b r.len b' n' (Ne.symm hu) hme hb'
+    have hit : iters r b = r.len := iters_eq r b (by omega)
+    simp only
+    split
+    · rw [← cfg_eta c]
+      exact inv_update h t _ c.R c.Y c.C c.P h.yr (Nat.le_refl _) (ret_self _ _ _ _ _ _ htodo0 (fun _ => htk.1)) (oth_same h t)
+        (fun _ hall hnn => hidle0 (by simp [Pc.inCS]) (ret ⟨.ent r b, todo, outs⟩ r .fin) (ret_inCS _ _ _) hall hnn) (hns rfl _) hentS
+    · rename_i hC
+      rw [hit, if_neg (by omega)]
+      have hbY : b = c.Y := h.entY t r b (by simp [hx])
+      have hno := others_not_inCS h t b r.len hme hbY
+      have hall : ∀ u, (c.th u).pc.inCS = false := by
+        intro u
+        by_cases hu : u = t
+        · subst hu; simp [hx, Pc.inCS]
+        · exact hno u hu
+      -- `completed` is unset and nobody is recording (they would be inside): every call so far returned an element
+      have hnn : NoNoneBefore s c.P := by
+        by_cases hq : NoNoneBefore s c.P
+        · exact hq
+        · rcases h.noneC hq with h1 | ⟨u, hu⟩
+          · simp [h1] at hC
+          · have : (c.th u).pc.inCS = true := by
+              generalize (c.th u).pc = q at hu; cases q <;> simp [Pc.recording, Pc.inCS] at hu ⊢
+            rw [hall u] at this; exact absurd this (by simp)
+      rw [← cfg_eta c]
+      refine inv_update h t _ c.R c.Y c.C c.P h.yr (Nat.le_refl _) ⟨htodo0, by simp, ?_, (by intro r' b' acc' he; simp at he; obtain ⟨rfl, rfl, rfl⟩ := he; have := htk.1; simp; omega), by simp, by simp, (fun _ _ _ _ => hnn), by simp⟩ (oth_same h t) (by simp [Pc.inCS]) (fun hq => absurd hnn hq) hentS
+      intro b0 n0 hb0
+      simp [Pc.ticket] at hb0
+      obtain ⟨rfl, rfl⟩ := hb0
+      refine ⟨htk.1, htk.2.1, htk.2.2, fun _ => hbY, by simp [Pc.acc], by simp [Pc.acc], ?_, hdisj⟩
+      intro _ _
+      have := h.pidle hall hnn
+      simp [Pc.acc]; omega
   | cs r b acc =>
     have hme : (c.th t).pc.ticket = some (b, r.len) := by simp [hx, Pc.ticket]
     have hcs : (c.th t).pc.inCS = true := by simp [hx, Pc.inCS]
@@ -176,9 +230,10 @@ theorem step_inv {s : Script} (hf : Fused s) {c : Cfg} (h : Inv s c) (hW : c.R <
     have hlt := h.csLt t r b acc (by simp [hx])
     have hpcs := h.pcs t b r.len hcs hme
     simp [hx, Pc.acc] at hpcs
+    have hcall := h.callOk t r b acc (by simp [hx])
     simp only
     rw [← cfg_eta c]
-    refine inv_update h t _ c.R c.Y c.C c.P h.yr (Nat.le_refl _) ⟨htodo0, by simp, ?_, (by intro r' b' acc' he; simp at he; obtain ⟨rfl, rfl, rfl⟩ := he; exact hlt), by simp, by simp⟩ (oth_same h t) (by simp [Pc.inCS])
+    refine inv_update h t _ c.R c.Y c.C c.P h.yr (Nat.le_refl _) ⟨htodo0, by simp, ?_, (by intro r' b' acc' he; simp at he; obtain ⟨rfl, rfl, rfl⟩ := he; exact hlt), by simp, by simp, (fun _ _ _ _ => hcall), by simp⟩ (oth_same h t) (by simp [Pc.inCS]) (fun hq => absurd hcall hq) hentS
     intro b0 n0 hb0
     simp [Pc.ticket] at hb0
     obtain ⟨rfl, rfl⟩ := hb0
@@ -199,15 +254,19 @@ theorem step_inv {s : Script} (hf : Fused s) {c : Cfg} (h : Inv s c) (hW : c.R <
       refine ⟨(h.tk u b' n' hb').2.1, fun hc => ?_⟩
       simp [hno u hu] at hc
     have hit : iters r b = r.len := iters_eq r b (by omega)
+    have hnn : NoNoneBefore s c.P := h.callOk t r b acc (by simp [hx])
+    have hP : c.P = b + acc.length := by simpa [hx, Pc.acc] using h.pcs t b r.len hcs hme hnn
+    have hlen3 : acc.length < r.len := h.csLt t r b acc (by simp [hx])
     simp only
     rw [hit]
     cases hsp : s c.P with
     | some v =>
-      have hnn := fused_some hf hsp
-      have hP : c.P = b + acc.length := by simpa [hx, Pc.acc] using h.pcs t b r.len hcs hme hnn
+      have hnn1 : NoNoneBefore s (c.P + 1) := by
+        intro i hi
+        by_cases hip : i = c.P
+        · subst hip; simp [hsp, IsSome]
+        · exact hnn i (by omega)
       have hlen1 : (acc ++ [v]).length = acc.length + 1 := by simp
-      have hlen2 := hacc.2
-      have hlen3 : acc.length < r.len := h.csLt t r b acc (by simp [hx])
       have hacc' : ∀ k (hk : k < (acc ++ [v]).length), s (b + k) = .some ((acc ++ [v])[k]) := by
         intro k hk
         by_cases hk' : k < acc.length
@@ -218,14 +277,15 @@ theorem step_inv {s : Script} (hf : Fused s) {c : Cfg} (h : Inv s c) (hW : c.R <
       simp only
       split
       · rename_i hfull
-        refine inv_update h t _ c.R c.Y c.C (c.P + 1) h.yr (Nat.le_refl _) ⟨htodo0, by simp, ?_, by simp, (by intro r' b' acc' he _; simp at he; obtain ⟨rfl, rfl, rfl⟩ := he; assumption), by simp⟩ hoth (by simp [Pc.inCS])
+        rw [if_neg (by omega)]
+        refine inv_update h t _ c.R c.Y c.C (c.P + 1) h.yr (Nat.le_refl _) ⟨htodo0, by simp, ?_, by simp, (by intro r' b' acc' he _; simp at he; obtain ⟨rfl, rfl, rfl⟩ := he; assumption), by simp, by simp, by simp⟩ hoth (by simp [Pc.inCS]) (fun hq => absurd hnn1 hq) hentS
         intro b0 n0 hb0
         simp [Pc.ticket] at hb0
         obtain ⟨rfl, rfl⟩ := hb0
         refine ⟨htk.1, htk.2.1, htk.2.2, fun _ => hbY, by simpa [Pc.acc] using hacc', by simp only [Pc.acc]; omega, ?_, hdisj⟩
         intro _ _; simp [Pc.acc]; omega
       · rename_i hnf
-        refine inv_update h t _ c.R c.Y c.C (c.P + 1) h.yr (Nat.le_refl _) ⟨htodo0, by simp, ?_, (by intro r' b' acc' he; simp at he; obtain ⟨rfl, rfl, rfl⟩ := he; omega), by simp, by simp⟩ hoth (by simp [Pc.inCS])
+        refine inv_update h t _ c.R c.Y c.C (c.P + 1) h.yr (Nat.le_refl _) ⟨htodo0, by simp, ?_, (by intro r' b' acc' he; simp at he; obtain ⟨rfl, rfl, rfl⟩ := he; omega), by simp, by simp, (fun _ _ _ _ => hnn1), by simp⟩ hoth (by simp [Pc.inCS]) (fun hq => absurd hnn1 hq) hentS
         intro b0 n0 hb0
         simp [Pc.ticket] at hb0
         obtain ⟨rfl, rfl⟩ := hb0
@@ -233,55 +293,43 @@ theorem step_inv {s : Script} (hf : Fused s) {c : Cfg} (h : Inv s c) (hW : c.R <
         intro _ _; simp [Pc.acc]; omega
     | none =>
       have hnotnn : ¬ NoNoneBefore s (c.P + 1) := by
-        intro hnn; have := hnn c.P (by omega); simp [hsp, IsSome] at this
+        intro hq; have := hq c.P (by omega); simp [hsp, IsSome] at this
       simp only
-      split
-      · refine inv_update h t _ c.R c.Y c.C (c.P + 1) h.yr (Nat.le_refl _) ⟨htodo0, by simp, ?_, by simp, by simp, (by intro r' b' _; exact hnotnn)⟩ hoth (by simp [Pc.inCS])
-        intro b0 n0 hb0
-        simp [Pc.ticket] at hb0
-        obtain ⟨rfl, rfl⟩ := hb0
-        exact ⟨htk.1, htk.2.1, htk.2.2, fun _ => hbY, by simp [Pc.acc], by simp [Pc.acc], fun _ hnn => absurd hnn hnotnn, hdisj⟩
-      · split
-        · refine inv_update h t _ c.R c.Y c.C (c.P + 1) h.yr (Nat.le_refl _) ⟨htodo0, by simp, ?_, by simp, by simp, (by intro r' b' _; exact hnotnn)⟩ hoth (by simp [Pc.inCS])
-          intro b0 n0 hb0
-          simp [Pc.ticket] at hb0
-          obtain ⟨rfl, rfl⟩ := hb0
-          exact ⟨htk.1, htk.2.1, htk.2.2, fun _ => hbY, by simp [Pc.acc], by simp [Pc.acc], fun _ hnn => absurd hnn hnotnn, hdisj⟩
-        · refine inv_update h t _ c.R c.Y c.C (c.P + 1) h.yr (Nat.le_refl _) ⟨htodo0, by simp, ?_, by simp, (by intro r' b' acc' _ hnn; exact absurd hnn hnotnn), by simp⟩ hoth (by simp [Pc.inCS])
-          intro b0 n0 hb0
-          simp [Pc.ticket] at hb0
-          obtain ⟨rfl, rfl⟩ := hb0
-          exact ⟨htk.1, htk.2.1, htk.2.2, fun _ => hbY, by simpa [Pc.acc] using hacc.1, by simpa [Pc.acc] using hacc.2, fun _ hnn => absurd hnn hnotnn, hdisj⟩
-    | panic =>
-      have hnotnn : ¬ NoNoneBefore s (c.P + 1) := by
-        intro hnn; have := hnn c.P (by omega); simp [hsp, IsSome] at this
-      simp only
-      refine inv_update h t _ c.R c.Y c.C (c.P + 1) h.yr (Nat.le_refl _) ⟨htodo0, by simp, ?_, by simp, by simp, by simp⟩ hoth (by simp [Pc.inCS])
+      refine inv_update h t _ c.R c.Y c.C (c.P + 1) h.yr (Nat.le_refl _) ⟨htodo0, by simp, ?_, (by intro r' b' acc' he; simp at he; obtain ⟨rfl, rfl, rfl⟩ := he; exact hlen3), by simp, (by intro r' b' acc' _; exact hnotnn), by simp, by simp⟩ hoth (by simp [Pc.inCS]) (fun _ => Or.inr (Or.inl (by simp [Pc.recording]))) hentS
       intro b0 n0 hb0
       simp [Pc.ticket] at hb0
       obtain ⟨rfl, rfl⟩ := hb0
-      exact ⟨htk.1, htk.2.1, htk.2.2, fun _ => hbY, by simp [Pc.acc], by simp [Pc.acc], fun _ hnn => absurd hnn hnotnn, hdisj⟩
-  | setC r b =>
+      exact ⟨htk.1, htk.2.1, htk.2.2, fun _ => hbY, by simpa [Pc.acc] using hacc.1, by simpa [Pc.acc] using hacc.2, fun _ hq => absurd hq hnotnn, hdisj⟩
+    | panic =>
+      have hnotnn : ¬ NoNoneBefore s (c.P + 1) := by
+        intro hq; have := hq c.P (by omega); simp [hsp, IsSome] at this
+      simp only
+      refine inv_update h t _ c.R c.Y c.C (c.P + 1) h.yr (Nat.le_refl _) ⟨htodo0, by simp, ?_, by simp, by simp, by simp, by simp, by simp⟩ hoth (by simp [Pc.inCS]) (fun _ => Or.inr (Or.inl (by simp [Pc.recording]))) hentS
+      intro b0 n0 hb0
+      simp [Pc.ticket] at hb0
+      obtain ⟨rfl, rfl⟩ := hb0
+      exact ⟨htk.1, htk.2.1, htk.2.2, fun _ => hbY, by simp [Pc.acc], by simp [Pc.acc], fun _ hq => absurd hq hnotnn, hdisj⟩
+  | setC r b acc =>
     have hme : (c.th t).pc.ticket = some (b, r.len) := by simp [hx, Pc.ticket]
     have hcs : (c.th t).pc.inCS = true := by simp [hx, Pc.inCS]
     have htk := h.tk t b r.len hme
     have hbY := h.csY t b r.len hcs hme
+    have hacc := h.accOk t b r.len hme
+    simp [hx, Pc.acc] at hacc
     have hdisj : ∀ u b' n', u ≠ t → (c.th u).pc.ticket = some (b', n') → b + r.len ≤ b' ∨ b' + n' ≤ b :=
       fun u b' n' hu hb' => h.disj t u b r.len b' n' (Ne.symm hu) hme hb'
-    have hpcs := h.pcs t b r.len hcs hme
-    simp [hx, Pc.acc] at hpcs
+    have hnone := h.setCNone t r b acc (by simp [hx])
     simp only
     split
     · -- single: completed := true; return fin without publishing
-      refine inv_update h t _ c.R c.Y true c.P h.yr (Nat.le_refl _) (ret_self _ _ _ _ _ _ htodo0 (fun _ => htk.1)) (oth_same h t) ?_
+      refine inv_update h t _ c.R c.Y true c.P h.yr (Nat.le_refl _) (ret_self _ _ _ _ _ _ htodo0 (fun _ => htk.1)) (oth_same h t) ?_ (fun _ => Or.inl rfl) hentS
       intro _ _ hnn
-      have := hpcs hnn; omega
-    · refine inv_update h t _ c.R c.Y true c.P h.yr (Nat.le_refl _) ⟨htodo0, by simp, ?_, by simp, (by intro r' b' acc' _ hnn; exact absurd hnn (h.setCNone t r b (by simp [hx]))), by simp⟩ (oth_same h t) (by simp [Pc.inCS])
+      exact absurd hnn hnone
+    · refine inv_update h t _ c.R c.Y true c.P h.yr (Nat.le_refl _) ⟨htodo0, by simp, ?_, by simp, (by intro r' b' acc' _ hnn; exact absurd hnn hnone), by simp, by simp, by simp⟩ (oth_same h t) (by simp [Pc.inCS]) (fun _ => Or.inl rfl) hentS
       intro b0 n0 hb0
       simp [Pc.ticket] at hb0
       obtain ⟨rfl, rfl⟩ := hb0
-      refine ⟨htk.1, htk.2.1, htk.2.2, fun _ => hbY, by simp [Pc.acc], by simp [Pc.acc], ?_, hdisj⟩
-      intro _ hnn; simpa [Pc.acc] using hpcs hnn
+      exact ⟨htk.1, htk.2.1, htk.2.2, fun _ => hbY, by simpa [Pc.acc] using hacc.1, by simpa [Pc.acc] using hacc.2, fun _ hnn => absurd hnn hnone, hdisj⟩
   | pub r b acc =>
     have hme : (c.th t).pc.ticket = some (b, r.len) := by simp [hx, Pc.ticket]
     have hcs : (c.th t).pc.inCS = true := by simp [hx, Pc.inCS]
@@ -295,9 +343,16 @@ theorem step_inv {s : Script} (hf : Fused s) {c : Cfg} (h : Inv s c) (hW : c.R <
       have h2 := h.tk u b' n' hb'
       refine ⟨by omega, fun hc => ?_⟩
       simp [hno u hu] at hc
+    -- nobody else has seen its turn come: it would hold a ticket starting at Y as well
+    have hent' : ∀ u r' b', u ≠ t → (c.th u).pc = .ent r' b' → b' = c.Y + r.len := by
+      intro u r' b' hu hp
+      have hb' := h.entY u r' b' hp
+      have h1 := h.disj t u b r.len b' r'.len (Ne.symm hu) hme (by simp [hp, Pc.ticket])
+      have h2 := h.tk u b' r'.len (by simp [hp, Pc.ticket])
+      omega
     have hret : ∀ o, Inv s (setTh { c with R := c.R, Y := c.Y + r.len, C := c.C, P := c.P } t (ret ⟨Pc.pub r b acc, todo, outs⟩ r o)) := by
       intro o
-      refine inv_update h t _ c.R (c.Y + r.len) c.C c.P (by omega) (Nat.le_refl _) (ret_self _ _ _ _ _ _ htodo0 (fun _ => htk.1)) hoth ?_
+      refine inv_update h t _ c.R (c.Y + r.len) c.C c.P (by omega) (Nat.le_refl _) (ret_self _ _ _ _ _ _ htodo0 (fun _ => htk.1)) hoth ?_ (hns rfl _) hent'
       intro _ _ hnn
       have h1 := h.pcs t b r.len hcs hme hnn
       simp [hx, Pc.acc] at h1
@@ -317,7 +372,7 @@ theorem step_inv {s : Script} (hf : Fused s) {c : Cfg} (h : Inv s c) (hW : c.R <
     have hpcs := h.pcs t b n hcs hme
     simp [hx, Pc.acc] at hpcs
     simp only
-    refine inv_update h t _ c.R c.Y true c.P h.yr (Nat.le_refl _) ⟨htodo0, by simp, ?_, by simp, by simp, by simp⟩ (oth_same h t) (by simp [Pc.inCS])
+    refine inv_update h t _ c.R c.Y true c.P h.yr (Nat.le_refl _) ⟨htodo0, by simp, ?_, by simp, by simp, by simp, by simp, by simp⟩ (oth_same h t) (by simp [Pc.inCS]) (fun _ => Or.inl rfl) hentS
     intro b0 n0 hb0
     simp [Pc.ticket] at hb0
     obtain ⟨rfl, rfl⟩ := hb0
